@@ -420,11 +420,15 @@ class C03Progress(Base):
                     sat, _ = self.gt_state(t, facts)
                     xt = all(t['xtriggers'].values()) if t['xtriggers'] \
                         else True
-                    if sat and xt and int(t['point']) <= L:
-                        self.v('stall-with-runnable-task',
+                    if sat and int(t['point']) <= L:
+                        # (with an xtrigger still pending it will run when
+                        # that is satisfied - no intervention needed)
+                        self.v('stall-with-runnable-task' + (
+                            '' if xt else ':waiting-on-xtrigger'),
                                f'stall reported but {t["id"]} is waiting, '
                                'not held, within the runahead limit, with '
-                               'satisfied prerequisites',
+                               'satisfied prerequisites' + (
+                                   '' if xt else ' and an xtrigger pending'),
                                {'task': t, 'model_limit': L, 'pool': [
                                    (x['id'], x['status'], x['runahead'],
                                     x['outputs']) for x in pool_snap]})
